@@ -30,6 +30,7 @@ func init() {
 	register("C14", "no acknowledged write lost to snapshot/compaction/shutdown", func(w *World, r *Report) {
 		ruleORD1(w, r)
 		ruleORD2(w, r)
+		ruleORD2c(w, r)
 		ruleORD4(w, r)
 		ruleORD5(w, r)
 		ruleORD6(w, r)
@@ -40,12 +41,14 @@ func init() {
 func init() {
 	register("C05", "a rejected operation changes nothing, now or after restart", func(w *World, r *Report) {
 		ruleJRN3(w, r)
+		ruleSIB5(w, r) // a rejected batch must not leave part of itself behind
 	})
 	register("C01", "clean restart reproduces the pre-shutdown state", func(w *World, r *Report) {
 		ruleJRN12(w, r, nil)
 		ruleCDC123(w, r, nil)
 		ruleCDC4(w, r, nil)
 		ruleCDC8(w, r)
+		ruleORD2c(w, r)
 	})
 }
 
@@ -181,5 +184,14 @@ func init() {
 		ruleGRDexpand(w, r)
 		ruleTBLstop(w, r)
 		ruleEFFdet(w, r)
+		ruleGRDslice(w, r)
+	})
+}
+
+func init() {
+	register("C07", "small indexes are searched exactly (structural part)", func(w *World, r *Report) {
+		ruleSIBcap(w, r)
+		ruleGRDkeep(w, r)
+		ruleSIBsorted(w, r)
 	})
 }
